@@ -33,8 +33,10 @@ def scenario(case):
     lroot = T("lroot")
     if kind == "SymlinkNode":
         tn = Node("tn", parent=troot, foo=1)
-        link = SymlinkNode(tn, parent=lroot, **{case["name"]: "kw"})
+        link = SymlinkNode(tn, parent=lroot, **{case["name"]: "kw", "kw_none_": None})
         tgt = tn
+        if "kw_none_" not in tgt.__dict__ or tgt.__dict__["kw_none_"] is not None:
+            viol.append("constructor keyword with value None not stored on the target")
         if tgt.__dict__.get(case["name"]) != "kw":
             viol.append("constructor keyword %s not stored on the target" % case["name"])
         if case["name"] in link.__dict__:
